@@ -26,6 +26,33 @@ NOT_APPLICABLE = {
 }
 
 CHECKS = {
+    "C02": {
+        "engine": "c02_c12_refine",
+        "design_ref": "DESIGN.md 4.4",
+        "technique": "deterministic simulation: seeded histories over a pool of allocations sharing Rectangle objects, stub "
+                     "optimiser as environment, persist/restart through a simulated file system with write faults, abort "
+                     "injection; exact-rational reference model of the cells checked after every step; ddmin replay files",
+        "text": "Seeded search over compositions of refine / uniform-depth / griddify (applied to any earlier allocation of the "
+                "pool), interleaved with degenerate optimiser answers, persist-and-restart and operations killed midway. After "
+                "every step an exact rational model decides tiling, non-overlap, ratio inheritance, fixed cells uncut, and "
+                "per-module area and centroid through the library's own API. Sampling, not proof; the level fits because the "
+                "property quantifies over compositions and the state shared between parent and child allocations.",
+        "note": "Reference arithmetic is exact on the floats FRAME holds (Fraction); dyadic layouts must agree exactly, decimal "
+                "ones within 1e-9 relative. Layouts have <=10 initial cells and <=400 cells after refinement.",
+    },
+    "C12": {
+        "engine": "c02_c12_refine",
+        "design_ref": "DESIGN.md 4.4",
+        "technique": "deterministic simulation: seeded refine-while-needed loops with a stub optimiser between iterations, "
+                     "restart from the persisted allocation, abort injection; predicate-vs-operation equivalence, exact cell "
+                     "selection/halving/depth model, grid-alignment oracle, bounded-progress (liveness) check per iteration",
+        "text": "Same histories as C02 with the decision oracles: must_be_refined(t) iff refine(t) changes the allocation, "
+                "exactly the non-empty sub-threshold cells are split into 2^levels halves of the longer side with depth raised, "
+                "uniform depth reached, no refinable cell crossed by a boundary line after gridding (1 % sliver rule read "
+                "leniently), and every entered iteration of the refine-while-needed loop makes progress. Sampling, not proof.",
+        "note": "Fixed cells are exempt from the split/depth clauses because C02 forbids cutting them; loop length is capped "
+                "(cells grow geometrically). Exact rational model as for C02.",
+    },
     "C07": {
         "engine": "c07_sat",
         "design_ref": "DESIGN.md 4.2",
